@@ -243,6 +243,7 @@ func runC14(t *testing.T, rng *rand.Rand, rec *sim.Rec, tier string, caseNo int)
 		Realm: "verif.test", Users: map[string]string{"alice": "pw-a"},
 		PermTimeout: conf.perm, ChanTimeout: conf.ch, Lifetime: conf.life,
 		UDPListeners: []*net.UDPAddr{{IP: sim.ServerIP4, Port: 3478}},
+		DenyPeerIPs:  []string{"10.2.9.9", "fd00:2::99"}, // the operator's permission handler refuses this host
 	}
 	w, err := sim.NewWorld(cfg, rec, rng, true)
 	if err != nil {
@@ -327,6 +328,24 @@ func runC14(t *testing.T, rng *rand.Rand, rec *sim.Rec, tier string, caseNo int)
 		}
 		peers = append(peers, p)
 	}
+	// a second socket on the first peer's host that the client never writes to: it is admitted by
+	// the host's permission alone (no channel binding ever refreshes that as a side effect)
+	alt, err := w.NewPeer("alt", peers[0].Addr.IP, 7900)
+	if err != nil {
+		t.Fatal(err)
+	}
+	// one run in two starts with a write to a host the server refuses: an error for that write,
+	// and no consequence for anybody else
+	refused := caseNo%2 == 0
+	if refused {
+		deniedIP := net.IPv4(10, 2, 9, 9).To4()
+		if crossFamily {
+			deniedIP = net.ParseIP("fd00:2::99")
+		}
+		if _, err := conn.WriteTo([]byte("to-refused-host"), &net.UDPAddr{IP: deniedIP, Port: 7999}); err == nil {
+			rec.Ev("note/write-to-refused-host-returned-nil")
+		}
+	}
 	rd := &c14Reader{got: map[string]string{}}
 	readerDone := make(chan struct{})
 	var paused atomic.Bool
@@ -392,6 +411,23 @@ func runC14(t *testing.T, rng *rand.Rand, rec *sim.Rec, tier string, caseNo int)
 				rec.Violate("probe-wrong", "attribution", "probe from %s was attributed to %s", p.Addr, from)
 			}
 			rec.Ev("probes-delivered")
+			if i == 0 {
+				tagAlt := fmt.Sprintf("alt-%d", probes)
+				_, _ = alt.UDP.WriteTo([]byte(tagAlt), relay)
+				time.Sleep(100 * time.Millisecond)
+				rd.mu.Lock()
+				fromAlt, okAlt := rd.got[tagAlt]
+				delete(rd.got, tagAlt)
+				rd.mu.Unlock()
+				if !okAlt {
+					rec.Violate("probe-lost-to-client", pattern+"/unbound-port", "datagram from another port (%s) of a permitted host was not delivered at +%v (pattern %s, server timeouts perm=%v chan=%v lifetime=%v, a refused host was written to first: %v)", alt.Addr, time.Since(start).Round(time.Second), pattern, conf.perm, conf.ch, conf.life, refused)
+
+					return false
+				}
+				if fromAlt != alt.Addr.String() {
+					rec.Violate("probe-wrong", "attribution", "datagram from %s was attributed to %s", alt.Addr, fromAlt)
+				}
+			}
 		}
 		if w.Srv.AllocationCount() != 1 {
 			rec.Violate("allocation-vanished", pattern, "AllocationCount=%d at +%v while the client's socket is open", w.Srv.AllocationCount(), time.Since(start))
@@ -466,7 +502,7 @@ func runC14(t *testing.T, rng *rand.Rand, rec *sim.Rec, tier string, caseNo int)
 		time.Sleep(gap)
 		ok = probe()
 	}
-	rec.FP("run/%s/peers=%d/lossy=%v/perm=%v/chan=%v/life=%v/cross-family=%v/fast-perms=%v", pattern, min(npeers, 3), lossy, conf.perm, conf.ch, conf.life, crossFamily, fastPerms)
+	rec.FP("run/%s/peers=%d/lossy=%v/perm=%v/chan=%v/life=%v/cross-family=%v/fast-perms=%v/refused-first=%v", pattern, min(npeers, 3), lossy, conf.perm, conf.ch, conf.life, crossFamily, fastPerms, refused)
 	rec.EvN("virtual-minutes", int(time.Since(start)/time.Minute))
 	pmu.Lock()
 	rec.EvN("control-datagrams-dropped", dropped)
